@@ -147,6 +147,8 @@ def vc_apply(ctx):
                 if world == 'vac' and x_[0] == 'const' and x_[1] == 0:
                     found.append({'dot': y_[1], 'clock': em['E'][2][0]})
                     return ('gate', orient)   # a vacant entry: get(actor) is 0
+                if world == 'occ' and x_[0] == 'const' and x_[1] == 0:
+                    return ('zc', orient)     # ord(0, counter): decided only where the stored counter is below the dot's (then 0 < counter)
             return None
 
         def atom(t):
@@ -159,7 +161,7 @@ def vc_apply(ctx):
     res = {}
     for w, o in worlds:
         cls, atom = mk(w)
-        evr = Evaluator(facts, classify=cls, bool_atom=atom, assumption={'gate': o, 'occupied': w == 'occ'})
+        evr = Evaluator(facts, classify=cls, bool_atom=atom, assumption=dict({'gate': o, 'occupied': w == 'occ'}, **({'zc': LT} if (w, o) == ('occ', LT) else {})))
         rc = Reach(facts, body, evr)
         res[(w, o)] = (any(b in rc.reachable for b, _ in all_ins), rc.must_pass([b for b, _ in all_ins]) if all_ins else False)
     det = {'(entry state, ord(get(actor), counter)) -> (store may, must)': {'%s%s' % (w + ',' if w else '', o): v for (w, o), v in res.items()}}
@@ -452,7 +454,8 @@ def vc_intersect(ctx):
     pb = param_path(base) if base is not None else None
     sides_ok = pc is not None and pb is not None and {pc[0], pb[0]} == {1, 2} and not (set(iter_adaptors(src)) & LOSSY_ADAPTORS)
     val_ok = versionless(ins_k) == g['k'] and versionless(ins_v) == g['v']
-    retv = drop_lv(it.ret)
+    # (an empty clock has nothing in common with anything: `if left.dots.is_empty() { return VClock::new() }` in front)
+    retv = drop_lv(general_ret(facts, body, {'l': (1, ()), 'r': (2, ())}) or it.ret)
     ret_ok = retv[0] == 'agg' and retv[1] == VCLOCK
     errs = []
     if not res[EQ][1]:
